@@ -57,6 +57,16 @@ def main():
         err = spec.get("stdout_errors", "strict")
         sink = Sink(enc, err).install()
         mod = importlib.import_module("vf.props." + spec["prop"].lower())
+        if not spec.get("no_noise") and not getattr(mod, "NO_BACKGROUND_NOISE", False):
+            # unrelated library activity between judged cases of EVERY property (own random stream, own directory)
+            import random
+
+            from vf.engines import noise
+
+            nrng = random.Random(spec.get("seed", 0) * 31 + 7)
+            ndir = os.path.join(spec.get("scratch") or ".", "background-noise")
+            os.makedirs(ndir, exist_ok=True)
+            rec.ticker = lambda: noise.tick(lib, nrng, ndir)
         mod.run_shard(spec, rec, lib)
     except BaseException as e:  # noqa: BLE001
         rec.inconclusive_because(
